@@ -8,6 +8,7 @@ import (
 	"github.com/jrhy/mast"
 	"pgregory.net/rapid"
 	"verif/harness/core"
+	"verif/harness/ref"
 	"verif/harness/run"
 )
 
@@ -325,6 +326,36 @@ func kvKeysOf(kvs []core.KV) []interface{} {
 	return out
 }
 
+// enumC10Giant (thorough tier): an eighteen-level tree (2^17+8 consecutive keys at branch factor 2), iterated from its
+// first key, walked forward over its whole length and backward from its maximum.
+func enumC10Giant(tier string, shard, nshards int, yield func(C10Case) bool) (bool, string) {
+	if tier != "thorough" {
+		return false, ""
+	}
+	const n = 1<<17 + 8
+	for i, res := range []string{"memory", "reloaded"} {
+		if i%nshards != shard%2 || shard >= 2 {
+			continue
+		}
+		cfg := core.Config{BF: 2, Format: ref.FormatBinary, Key: core.KUint64, Val: core.VInt, Cache: "none", Marshaler: "json", Big: n}
+		fwd := make([]byte, n+2)
+		bwd := make([]byte, 3000)
+		for j := range fwd {
+			fwd[j] = 'F'
+		}
+		for j := range bwd {
+			bwd[j] = 'B'
+		}
+		c := C10Case{Cfg: cfg, Fill: []core.Op{{Kind: core.OpBulkIns, K: 0, V: 0, N: n}}, Residency: res,
+			Walks: []C10Walk{{Start: "min", Steps: string(fwd)}, {Start: "max", Steps: string(bwd)}, {Start: "ceil", Probe: n / 2, Steps: string(bwd[:500]) + string(fwd[:1500])}},
+			Seeks: []C10Seek{{Probe: 0, StopAt: -1}, {Probe: n - 5, StopAt: -1}, {Probe: 1 << 16, StopAt: 3}}}
+		if !yield(c) {
+			return false, ""
+		}
+	}
+	return false, "an eighteen-level tree of 131080 keys (bf 2): full SeekIter, a forward walk over every key, backward and mixed walks"
+}
+
 func init() {
 	run.Register(run.Prop[C10Case]{
 		ID:    "C10",
@@ -334,5 +365,6 @@ func init() {
 		Assumptions: []string{"Ceil is only called on a fresh cursor (the documented/used pattern)", "behaviour after stepping off either end is unspecified and not asserted"},
 		Gen:         genC10,
 		Run:         runC10,
+		Enumerate:   enumC10Giant,
 	})
 }
